@@ -56,7 +56,12 @@ def build(reg, src):
         "backend.kg_asarray, constructors of the node classes, reserved_fn_symbol_map.get, list_to_dict",
         "RecursionError counts as raising (the property allows 'raises an error')",
         "determinism / repeatability is argued from the frame (DESIGN C12-(4)), not an SMT obligation",
-        "the polynomial work bound is NOT decided (no ghost cost contracts built)",
+        "work bound: the ghost `frontier` discipline proves that parser-level readers never re-parse (no backtracking, nothing "
+        "parsed after a caught parse error); the step from there to 'number of reader calls linear in len(t)' is the laminar-"
+        "interval argument written in the comment (on paper), and builtin string operations (find, slicing) count as one step",
+        "parsing has no effect on variables: the evaluator entries (eval, call, _eval_fn, __call__, __setitem__, __delitem__, "
+        "__getitem__) carry `requires false` - any call from a parser function fails that precondition; context writes by other "
+        "routes (parse_module sets self._module) are outside this obligation",
         "kg_read_array(**kwargs): keyword arguments are modelled as read_neg / ignore_newline / module with arbitrary values",
     ]
     reg.assumed_calls.update({
@@ -165,7 +170,52 @@ def build(reg, src):
            ensures=[pair_post])
     reg.fn(T + 'has_none', returns=Bool, raises=[], loops={0: loop()})
 
+    # ---- work bound: no re-parsing.  Ghost `frontier` = the position up to which the text has been consumed by the recursive
+    # readers in this activation.  Every recursive reader requires i >= frontier; when one returns (i', node) the frontier moves
+    # to i'; when one RAISES the frontier moves past the end of the text, so nothing can be parsed after a caught parse error
+    # (no backtracking).  With the progress postconditions (every call that returns a node consumes >= 1 character) the calls
+    # of one activation cover disjoint, increasing intervals, nested calls at the same position are bounded by the rank of the
+    # termination measure => the number of reader calls is linear in len(t) (each doing lexer work linear in what it consumes).
+    # The lexer level (kg_read, read_list, kg_read_array: tokens and data literals) is NOT in the group: the parser uses kg_read
+    # as a one-token lookahead and re-reads that token (or list literal) from the same position - a constant factor per nesting
+    # rank, not a branching re-parse.
+    GROUP = ['read_cond', 'read_expr_array', '_apply_adverbs', '_read_fn_args', '_factor', '_expr', 'prog']
+    fr = lambda s: s.g('frontier')
+
+    def moved(eng, st, s, r):
+        st.ghost['frontier'] = r[0] if isinstance(r, VTuple) else VInt(L(s).t + 2)
+
+    def burnt(eng, st, s, e):
+        st.ghost['frontier'] = VInt(L(s).t + 2)
+    for name in GROUP:
+        c = reg.fns[(P if (P + name) in reg.fns else I) + name]
+        prev_setup = c.setup
+
+        def setup(eng, st, prev_setup=prev_setup):
+            if prev_setup:
+                prev_setup(eng, st)
+            st.ghost['frontier'] = fresh(Int, 'frontier')
+        c.setup = setup
+        c.requires = list(c.requires) + [lambda s: s.i >= fr(s)]
+        c.ghost_at_call = moved
+        c.ghost_at_raise = burnt
+        for k, lp in (c.loops or {}).items():
+            prev_mod = lp.modifies
+
+            def mod(eng, st, prev_mod=prev_mod):
+                if prev_mod:
+                    prev_mod(eng, st)
+                st.ghost['frontier'] = fresh(Int, 'frontier')
+            lp.modifies = mod
+            lp.invariant = list(lp.invariant) + [lambda s: fr(s) <= s.i]
+
+    # ---- parsing has no effect on variables: the evaluator is unreachable from the parser (`requires false` at its entries)
+    for name in ('eval', 'call', '_eval_fn', '__call__', '__setitem__', '__delitem__', '__getitem__'):
+        reg.fn(I + name, requires=[lambda s: VBool(False)], returns='opaque', verify=False)
+
     from replay import c12 as rp
+    reg.replays.append((r'#call\d*:KlongInterpreter\.(eval|call|_eval_fn|__call__|__setitem__|__delitem__|__getitem__)', rp.replay_parse_effects))
+    reg.replays.append((r'#call\d*:.*\.pre\d+$', rp.replay_work_bound))
     reg.replays.append((r'read_sys_comment#loop0\.variant', rp.replay_read_sys_comment))
     reg.replays.append((r'.', rp.replay_parse_generic))
 
